@@ -6,6 +6,7 @@
 #include <nano/lsearchk.h>
 #include <cmath>
 #include <cstdio>
+#include <string>
 using namespace nano;
 struct hole_t final : public function_t
 {
@@ -30,11 +31,82 @@ struct nanslope_t final : public function_t
         return x(0) * x(0);
     }
 };
-int main()
+// third scenario: a non-finite initial step t0 (NaN, +inf, -inf) on the convex quadratic f(x) = x^2 along d = -gradient:
+// lsearchk_t::get replaces / clamps it, so every line search must still succeed with a finite positive step whose state is
+// the evaluation at x0 + t*d (std::clamp alone lets a NaN through).
+struct square_t final : public function_t
+{
+    square_t() : function_t("square", 1) { convex(convexity::yes); smooth(smoothness::yes); }
+    rfunction_t clone() const override { return std::make_unique<square_t>(*this); }
+    scalar_t    do_vgrad(vector_cmap_t x, vector_map_t gx) const override
+    {
+        if (gx.size() == x.size()) { gx(0) = 2.0 * x(0); }
+        return x(0) * x(0);
+    }
+};
+// fourth scenario (only with the argument "ieee": counterexamples of the target lsearchk_get_ieee): a function that is finite
+// only at x0 (value 0, slope 1; +inf elsewhere).  Every positive trial step is invalid, the shrinking loop `t *= 0.3` underflows
+// to t = 0 after ~620 iterations, the evaluation at x0 + 0*d is valid again and do_get is entered with the step 0:
+// success must still mean a strictly positive step.
+struct spike_t final : public function_t
+{
+    spike_t() : function_t("spike", 1) { convex(convexity::no); smooth(smoothness::yes); }
+    rfunction_t clone() const override { return std::make_unique<spike_t>(*this); }
+    scalar_t    do_vgrad(vector_cmap_t x, vector_map_t gx) const override
+    {
+        const bool at0 = (x(0) == 0.0);
+        if (gx.size() == x.size()) { gx(0) = at0 ? 1.0 : 0.0; }
+        return at0 ? 0.0 : std::numeric_limits<scalar_t>::infinity();
+    }
+};
+int main(int argc, char** argv)
 {
     int  bad = 0;
     bool first_entry = true;
     std::printf("[");
+    if (argc > 1 && std::string(argv[1]) == "ieee")
+    {
+        for (const auto& id : {"backtrack", "lemarechal", "fletcher", "morethuente", "cgdescent"})
+        {
+            for (const int iters : {700, 2000})
+            {
+                auto ls = lsearchk_t::all().get(id);
+                ls->parameter("lsearchk::max_iterations") = iters;
+                spike_t  f;
+                vector_t x0(1);
+                x0(0)      = 0.0;
+                auto     state = solver_state_t{f, x0};
+                vector_t d(1);
+                d(0)               = -1.0;
+                const auto [ok, t] = ls->get(state, d, 1.0, make_null_logger());
+                const bool viol    = ok && !(std::isfinite(t) && t > 0.0);
+                bad += viol ? 1 : 0;
+                std::printf("%s{\"lsearchk\": \"%s\", \"scenario\": \"finite only at x0, step underflows to 0\", \"max_iterations\": %d, \"ok\": %d, \"t\": \"%g\", \"state_x\": \"%g\", \"violates\": %d}",
+                            first_entry ? "" : ", ", id, iters, ok ? 1 : 0, t, state.x()(0), viol ? 1 : 0);
+                first_entry = false;
+            }
+        }
+    }
+    for (const auto& id : {"backtrack", "lemarechal", "fletcher", "morethuente", "cgdescent"})
+    {
+        for (const double t0 : {std::numeric_limits<double>::quiet_NaN(), std::numeric_limits<double>::infinity(), -std::numeric_limits<double>::infinity()})
+        {
+            auto     ls = lsearchk_t::all().get(id);
+            square_t f;
+            vector_t x0(1);
+            x0(0)      = 1.0;
+            auto     state = solver_state_t{f, x0};
+            vector_t d(1);
+            d(0)               = -2.0;
+            const auto [ok, t] = ls->get(state, d, t0, make_null_logger());
+            const bool at      = std::isfinite(t) && std::fabs(state.x()(0) - (1.0 + t * -2.0)) <= 1e-12;
+            const bool viol    = !ok || !std::isfinite(t) || !(t > 0.0) || !state.valid() || !at;
+            bad += viol ? 1 : 0;
+            std::printf("%s{\"lsearchk\": \"%s\", \"scenario\": \"non-finite t0 on x^2\", \"t0\": \"%g\", \"ok\": %d, \"t\": \"%g\", \"state_x\": \"%g\", \"valid\": %d, \"violates\": %d}",
+                        first_entry ? "" : ", ", id, t0, ok ? 1 : 0, t, state.x()(0), state.valid() ? 1 : 0, viol ? 1 : 0);
+            first_entry = false;
+        }
+    }
     for (const auto& id : {"backtrack", "lemarechal", "fletcher", "morethuente", "cgdescent"})
     {
         auto        ls = lsearchk_t::all().get(id);
